@@ -35,6 +35,7 @@ func loadAll() (*Loaded, *ContractSet, error) {
 	if err := cs.LoadDir(verifDir() + "/contracts"); err != nil {
 		return nil, nil, err
 	}
+	cs.applySweeps()
 	return ld, cs, nil
 }
 
